@@ -113,6 +113,27 @@ def make_cases(chk):
     return cases
 
 
+SHIPPED = [("/repo/tests/iris_44.npz", 4), ("/repo/res/nn/iris.npz", 4), ("/repo/res/nn/ecoli.npz", 7)]
+
+
+def shipped_cases(chk):
+    """thorough tier: the networks shipped with the repository (weights of f32 origin: rounding regime)"""
+    if chk.tier != "thorough":
+        return []
+    probe = run_driver([{"id": "p%d" % i, "steps": [{"op": "read_layers", "name": "L", "path": p}]} for i, (p, n) in enumerate(SHIPPED)], tag="c01s")
+    cases = []
+    for i, (p, n) in enumerate(SHIPPED):
+        r = probe["p%d" % i][0]
+        if not r["ok"] or r["out"].get("result") != "ok":
+            chk.malfunction("cannot read shipped network %s: %s" % (p, r))
+            continue
+        layers = netref.layers_from_driver(r["out"]["layers"])
+        steps = [{"op": "read_layers", "name": "L", "path": p}, {"op": "from_layers", "name": "t", "dim": n, "layers": "L"}, {"op": "export", "tree": "t"}]
+        cases.append({"id": "shipped%d" % i, "steps": steps, "layers": layers, "n": n, "pre": None,
+                      "meta": {"in_dim": n, "layers": [l["t"] for l in layers][:12], "pre": "none", "units": netref.n_units(layers), "file": p}})
+    return cases
+
+
 def monitor_exact(tree):
     """exact regime premise: every exported coefficient is a dyadic rational with <= 45 significant bits"""
     for nd in tree.nodes.values():
@@ -238,7 +259,7 @@ def signature(case, real, exp, xf, res):
 def main():
     chk = Check("C01", "translation_validation", FUNCTIONS)
     conv = get_convention(chk)
-    cases = make_cases(chk)
+    cases = make_cases(chk) + shipped_cases(chk)
     results = run_driver([{"id": c["id"], "steps": c["steps"]} for c in cases], tag="c01")
     jobs = [(c, results[c["id"]], conv, i % 8 == 0) for i, c in enumerate(cases)]
     with Pool(16) as pool:
